@@ -84,6 +84,8 @@ add('self_assign_cond', '', 'let mut s: string = (+ "a" "b")\nset s (cond (true 
 add('aggregate_string_alias', 'union UA {\n VA { a0: string },\n VB { a0: int }\n}', 'let mut v: string = ""\nlet mut c: int = 0\nwhile (< c 2) {\n set v (+ v (int_to_string c))\n set c (+ c 1)\n}\nlet u: UA = UA.VA { a0: v }\nset v "hello"\nlet mut w: string = "a"\nmatch u {\n VA(m) => { (println m.a0) },\n VB(m2) => { (println "b") }\n}\n(println v)', '01\nhello\n')
 add('string_field_direct', 'struct PS { a: int, n: string }\nfn sf(p: PS) -> string {\n let mut v: string = ""\n let mut c: int = 0\n while (< c 3) {\n  set c (+ c 1)\n  set v p.n\n  let mut k: int = (+ (string_to_int (int_to_string c)) 617)\n }\n return v\n}\nshadow sf { assert true }', '(println (sf PS { a: 1, n: "nano" }))', 'nano\n')
 add('import_call_in_shadow', 'from "census_m1.nano" import imp_seven\nfn via() -> int {\n return (imp_seven)\n}\nshadow via { assert (== (via) 7) }', '(println (via))', 'in-imp\n7\n')
+add('local_shadows_global_set', 'let nn: int = 10\nlet mut mm: int = 20\nfn lsg() -> int {\n let mut nn: int = 1\n set nn (+ nn 5)\n let mut mm: int = 2\n set mm (+ mm 7)\n return (+ nn mm)\n}\nshadow lsg { assert true }', '(println (lsg))\n(println nn)\n(println mm)', '15\n10\n20\n')
+add('for_var_shadows_global_const', 'let kk: int = 7', 'for kk in (range 0 3) {\n (println kk)\n}\n(println kk)', '0\n1\n2\n7\n')
 add('import_fnvalue', '', '(println "skip")', 'skip\n')
 
 
